@@ -19,6 +19,8 @@ def apply_op(u, model, op, counters=None):
             val = None
         elif isinstance(vtag, tuple) and vtag[0] == 'FALSY':  # ('FALSY', tag): a value that is false in a boolean context
             val = u.val(vtag[1], falsy=True)
+        elif isinstance(vtag, tuple) and vtag[0] == 'FF':   # ('FF', tag): a factory whose product is false in a boolean context
+            val = u.val(vtag[1], falsy_factory=True)
         elif isinstance(vtag, tuple) and vtag[0] == 'NF':   # ('NF', tag): a factory that returns None
             val = u.val(vtag[1], none_factory=True)
         elif isinstance(vtag, tuple):       # ('tag', eqid): equal-but-distinct values
